@@ -143,6 +143,7 @@ fn scenario(sc: &Value) -> Value {
         let xbeam = xbeam.clone();
         let start = start.clone();
         let after_shutdown = after_shutdown.clone();
+        let xdrops: Vec<bool> = sc["xdrop"].as_array().map(|a| a.iter().map(|x| x.as_bool().unwrap_or(false)).collect()).unwrap_or_default();
         let dropsleeps: Vec<i64> = sc["dropsleep"].as_array().map(|a| a.iter().filter_map(|x| x.as_i64()).collect()).unwrap_or_default();
         let cbsleeps: Vec<i64> = sc["cbsleep"].as_array().map(|a| a.iter().filter_map(|x| x.as_i64()).collect()).unwrap_or_default();
         proxy_threads.push(std::thread::spawn(move || {
@@ -158,7 +159,14 @@ fn scenario(sc: &Value) -> Value {
                         verif::emit("h.add", &[("px", p), ("r", r)]);
                         if kinds[r as usize - 1] == "xbeam" {
                             let xr = proxy.route_ipc_receiver_to_new_crossbeam_receiver(rx);
-                            xbeam.lock().unwrap()[r as usize - 1] = Some(xr);
+                            if xdrops.get(r as usize - 1).copied().unwrap_or(false) {
+                                // the consumer walks away at once while the IPC sender lives on: its route's messages
+                                // have nowhere to go, every other route must not notice
+                                verif::emit("h.xdrop", &[("r", r)]);
+                                drop(xr);
+                            } else {
+                                xbeam.lock().unwrap()[r as usize - 1] = Some(xr);
+                            }
                         } else {
                             let guard = Guard(r, dropsleeps.get(r as usize - 1).copied().unwrap_or(0).max(0) as u64);
                             let calls = calls.clone();
